@@ -74,8 +74,10 @@ def C07(ctx):
     ctx.run(sp, nontrivial=cyc, runtime=False)
     if not ctx.quick:
         ctx.run(ctx.export('FamilyGSplit(p, 4)', pre_sample=4000), nontrivial=cyc, runtime=False)
-    sc = ctx.export('FamilyLattice(p, {10, 20, 40})') + ctx.export('FamilyChain(p, {50, 150})')
-    ctx.run(sc, nontrivial=lambda c: True, runtime=False, build=False)
+    sc = ctx.export('FamilyLattice(p, {6, 10, 20, 40})') + ctx.export('FamilyChain(p, {50, 150})')
+    # one package per invocation, with the verif hooks' loop counters: iterations of the cycle search and of the planner
+    # must stay within WorkBound (linear in nodes + edges); without counters the timeout is the criterion
+    ctx.run(sc, nontrivial=lambda c: True, runtime=False, build=False, single=True)
 
 
 # ------------------------------------------------------------------ C02
